@@ -25,6 +25,15 @@ func sTimespan(ns int64) *Spec      { return &Spec{K: "timespan", I: ns} }
 func sTimestamp(id int, sec, ns int64) *Spec { return &Spec{K: "timestamp", Id: id, I: sec, J: ns} }
 func sObj(id int, typ string, args ...*Spec) *Spec { return &Spec{K: "obj", Id: id, S: typ, E: args} }
 
+func sNone() *Spec { return &Spec{K: "none"} }
+func sPT(id int, ctor string, e ...*Spec) *Spec { return &Spec{K: "ptype", Id: id, S: ctor, E: e} }
+func sPTs(id int, ctor string, lo, hi int64, e ...*Spec) *Spec {
+	return &Spec{K: "ptype", Id: id, S: ctor, B: true, I: lo, J: hi, E: e}
+}
+func sTy(expr string) *Spec   { return sK("type", 0, expr) }
+func sOT(name string) *Spec   { return sK("objtype", 0, name) }
+func sAl(name string) *Spec   { return sK("alias", 0, name) }
+
 const sensText = "Sensitive [value redacted]"
 
 var long25 = "abcdefghijklmnopqrstuvwxy"  // >= 20
@@ -83,6 +92,23 @@ func corpus() []*Spec {
 		sArr(0, s1(), s2(), sStr("x"), s2()), sArr(0, s1(), s2(), s2()), sArr(0, sStr(sensText), s1(), sStr("y"), s1()),
 		sArr(0, b1(), sStr("AQI="), b2(), sStr("/w=="), b1(), b2()), sArr(0, sStr("AQI="), b1(), sInt(7), b1(), sStr("z"), sStr("z")),
 		sHash(0, sStr("s"), s1(), sStr("t"), s2(), sStr("u"), sArr(0, s2(), s1()), sStr("v"), long25Spec()),
+		// parameterized types over user types: no serialization string, they travel as instances of their
+		// meta type with the trailing default-valued optional attributes left out (serializer.go:327-353)
+		sPT(0, "Array", sOT("My::Pt")), sPTs(0, "Array", 1, 3, sOT("My::Pt")), sPT(0, "Array", sAl("My::Ints")), sPTs(0, "Array", 2, 2, sPT(0, "Array", sOT("My::Wrap"))),
+		sPT(0, "Hash", sTy("String"), sOT("My::Pt")), sPT(0, "Hash", sTy("Any"), sOT("My::Pt")), sPTs(0, "Hash", 1, 2, sTy("Any"), sOT("My::Pt")),
+		sPT(0, "Hash", sOT("My::Pt"), sTy("Any")), sPTs(0, "Hash", 1, 2, sOT("My::Pt"), sTy("Any")), sPT(0, "Hash", sOT("My::Pt"), sOT("My::Pt")),
+		sPT(0, "Callable", sPT(0, "Tuple", sOT("My::Pt")), sOT("My::Pt")), sPT(0, "Callable", sPTs(0, "Tuple", 0, 0), sOT("My::Pt")),
+		sPT(0, "Callable", sPT(0, "Tuple", sOT("My::Pt"))), sPT(0, "Callable", sPT(0, "Tuple", sTy("Integer")), sNone(), sPT(0, "Callable", sPT(0, "Tuple", sOT("My::Pt")))),
+		sPT(0, "Callable", sPT(0, "Tuple", sTy("Integer")), sOT("My::Wrap"), sPT(0, "Callable", sPT(0, "Tuple", sTy("String")))),
+		sPT(0, "Tuple", sOT("My::Pt")), sPTs(0, "Tuple", 1, 5, sOT("My::Pt"), sTy("Integer")), sPT(0, "Variant", sOT("My::Pt"), sTy("Integer")),
+		sPT(0, "Variant", sOT("My::Pt"), sOT("My::Wrap"), sAl("My::Tree")), sPT(0, "Optional", sOT("My::Pt")), sPT(0, "NotUndef", sOT("My::Wrap")), sPT(0, "Type", sOT("My::Pt")),
+		sPT(0, "Iterable", sOT("My::Pt")), sPT(0, "Iterator", sAl("My::Ints")), sPT(0, "Sensitive", sOT("My::Pt")), sPT(0, "Like", sOT("My::Pt")),
+		sPT(0, "Optional", sPT(0, "Hash", sTy("Any"), sPT(0, "Variant", sOT("My::Pt"), sTy("Undef")))),
+		sPT(0, "Struct", sOT("My::Pt")), sArr(0, sInt(1), &Spec{K: "ptype", S: "Struct", I: 1, E: []*Spec{sOT("My::Pt"), sTy("Integer")}}),
+		// the same parameterized type at several places, next to the object type it mentions and an instance of it
+		sArr(0, sPT(11, "Hash", sTy("Any"), sOT("My::Pt")), sOT("My::Pt"), sPT(11, "Hash", sTy("Any"), sOT("My::Pt")), pt(), sPT(0, "Hash", sTy("Any"), sOT("My::Pt"))),
+		sHash(0, sStr("t"), sPTs(12, "Array", 1, 3, sOT("My::Pt")), sStr("u"), sSens(0, sPTs(12, "Array", 1, 3, sOT("My::Pt"))), sStr("size_type"), sTy("Integer[1,3]")),
+		sObj(0, "My::Wrap", sPT(0, "Callable", sPT(0, "Tuple", sOT("My::Pt")), sOT("My::Pt")), sPT(0, "Hash", sTy("Any"), sOT("My::Wrap"))),
 		// by-format finding: a user hash with the string key __ptype
 		sHash(0, sStr("__ptype"), sStr("SemVer"), sStr("__pvalue"), sStr("1.0.0")), sArr(0, sHash(0, sStr("__ptype"), sStr("Default"))),
 		sHash(0, sStr("a"), sHash(0, sStr("__ptype"), sStr("NoSuchType"), sStr("x"), sInt(1))),
@@ -142,6 +168,73 @@ func exhaustiveFamily(maxLen int) []*Spec {
 	return out
 }
 
+// attributeFamily: bounded-exhaustive over the meta types with optional attributes: every combination of
+// {default value, non-default value without a user type, value with a user type} per attribute that
+// holds at least one user type (otherwise the type has a serialization string and does not travel by
+// attributes).  This varies systematically WHERE in the attribute list the default-valued attributes
+// sit relative to the non-default ones (leading, in the middle, trailing run of any length).
+func attributeFamily() []*Spec {
+	var out []*Spec
+	user := []func() *Spec{func() *Spec { return sOT("My::Pt") }, func() *Spec { return sAl("My::Ints") }}
+	// a slot: 0 = the attribute's default, 1 = a non-default value with a serialization string, 2.. = user types
+	type slot struct {
+		spec *Spec
+		user bool
+	}
+	slots := func(dflt, plain *Spec) []slot {
+		r := []slot{{dflt, false}, {plain, false}}
+		for _, u := range user {
+			r = append(r, slot{u(), true})
+		}
+		return r
+	}
+	sizes := []struct {
+		b      bool
+		lo, hi int64
+	}{{false, 0, 0}, {true, 1, 3}, {true, 0, math.MaxInt64}, {true, 0, 0}}
+	// Hash: key_type, value_type (default Any), size_type (default Integer[0])
+	for _, k := range slots(sTy("Any"), sTy("String")) {
+		for _, v := range slots(sTy("Any"), sTy("Integer[1,3]")) {
+			if !k.user && !v.user {
+				continue
+			}
+			for _, z := range sizes {
+				out = append(out, &Spec{K: "ptype", S: "Hash", B: z.b, I: z.lo, J: z.hi, E: []*Spec{k.spec, v.spec}})
+			}
+		}
+	}
+	// Array: element_type (default Any), size_type;  Tuple: types (required), size_type
+	for _, u := range user {
+		for _, z := range sizes {
+			out = append(out, &Spec{K: "ptype", S: "Array", B: z.b, I: z.lo, J: z.hi, E: []*Spec{u()}})
+			out = append(out, &Spec{K: "ptype", S: "Tuple", B: z.b, I: z.lo, J: z.hi, E: []*Spec{u(), sTy("String")}})
+		}
+	}
+	// Callable: param_types, block_type, return_type (default undef each); a Callable without
+	// parameter types cannot have the others
+	params := []slot{{sPT(0, "Tuple", sTy("Integer")), false}, {sPTs(0, "Tuple", 0, 0), false}, {sPT(0, "Tuple", sOT("My::Pt")), true}, {sPTs(0, "Tuple", 1, 2, sAl("My::Ints")), true}}
+	blocks := []slot{{sNone(), false}, {sPT(0, "Callable", sPT(0, "Tuple", sTy("String"))), false}, {sPT(0, "Callable", sPT(0, "Tuple", sOT("My::Pt"))), true}}
+	rets := []slot{{sNone(), false}, {sTy("Integer"), false}, {sOT("My::Pt"), true}, {sAl("My::Ints"), true}}
+	for _, p := range params {
+		for _, b := range blocks {
+			for _, r := range rets {
+				if p.user || b.user || r.user {
+					out = append(out, sPT(0, "Callable", p.spec, r.spec, b.spec))
+				}
+			}
+		}
+	}
+	// the single-attribute meta types (type, default Any) and Init (type, init_args default [])
+	for _, c := range []string{"Optional", "NotUndef", "Type", "Iterable", "Iterator", "Sensitive"} {
+		for _, u := range user {
+			out = append(out, sPT(0, c, u()), sPT(0, c, sPT(0, "Hash", sTy("Any"), u())))
+		}
+	}
+	out = append(out, sPT(0, "Init", sOT("My::Pt")), sPT(0, "Init", sOT("My::Pt"), sInt(1)), sPT(0, "Init", sOT("My::Pt"), sInt(1), sInt(0), sStr("t")),
+		sPT(0, "Init", sOT("My::Wrap"), sArr(0, sInt(1))), sPT(0, "Init", sOT("My::Wrap"), sArr(0)))
+	return out
+}
+
 // ---- seeded random values with deliberate sharing ----
 
 type gen struct {
@@ -167,7 +260,11 @@ var typeExprs = []string{"Integer[1,3]", "Integer", "String", "Array[String]", "
 func (g *gen) id() int { g.nextId++; return g.nextId }
 
 func (g *gen) top() *Spec {
-	// the top is a container so that there is something to share
+	// one value in ten is a parameterized type over user types (its attributes are compared one by one)
+	if g.r.Chance(1, 10) {
+		return g.ptype(0, true)
+	}
+	// otherwise the top is a container so that there is something to share
 	if g.r.Chance(1, 2) {
 		return g.array(0)
 	}
@@ -225,7 +322,104 @@ func (g *gen) timestamp() *Spec {
 	return sTimestamp(g.id(), sec, ns[g.r.Intn(len(ns))])
 }
 
+// userType: a leaf with a user type in it
+func (g *gen) userType() *Spec {
+	if g.r.Chance(2, 3) {
+		return sOT(objTypeOrder[g.r.Intn(len(objTypeOrder))])
+	}
+	return sAl(aliasOrder[g.r.Intn(len(aliasOrder))])
+}
+
+var plainTypeExprs = []string{"Any", "String", "Integer", "Integer[1,3]", "Integer[0]", "Undef", "Array[String]", "Optional[String]", "Type", "Callable"}
+
+// ptype: a random parameterized type; must: it has to mention a user type (and so travels by attributes)
+func (g *gen) ptype(depth int, must bool) *Spec {
+	leaf := func(must bool) *Spec {
+		if must || g.r.Chance(1, 2) {
+			return g.userType()
+		}
+		return sTy(plainTypeExprs[g.r.Intn(len(plainTypeExprs))])
+	}
+	param := func(must bool) *Spec {
+		if depth < 3 && g.r.Chance(1, 3) {
+			return g.ptype(depth+1, must)
+		}
+		return leaf(must)
+	}
+	s := &Spec{K: "ptype", Id: g.id()}
+	size := func() {
+		switch g.r.Intn(5) {
+		case 0:
+			s.B, s.I, s.J = true, int64(g.r.Intn(3)), int64(3+g.r.Intn(3))
+		case 1:
+			s.B, s.I, s.J = true, 0, math.MaxInt64
+		case 2:
+			s.B, s.I, s.J = true, int64(g.r.Intn(2)), math.MaxInt64
+		}
+	}
+	switch g.r.Intn(14) {
+	case 0, 1:
+		s.S = "Array"
+		s.E = []*Spec{param(must)}
+		size()
+	case 2, 3, 4:
+		s.S = "Hash"
+		w := g.r.Intn(3) // which parameter has the user type: key, value, both
+		s.E = []*Spec{param(must && w != 1), param(must && w != 0)}
+		size()
+	case 5:
+		s.S = "Tuple"
+		n := 1 + g.r.Intn(3)
+		w := g.r.Intn(n)
+		for i := 0; i < n; i++ {
+			s.E = append(s.E, param(must && i == w))
+		}
+		size()
+	case 6, 7, 8:
+		s.S = "Callable"
+		w := g.r.Intn(3)
+		tuple := &Spec{K: "ptype", S: "Tuple"}
+		for i, n := 0, g.r.Intn(3); i < n; i++ {
+			tuple.E = append(tuple.E, param(false))
+		}
+		if must && w == 0 {
+			tuple.E = append(tuple.E, param(true))
+		}
+		if len(tuple.E) == 0 {
+			tuple.B = true // Tuple[0, 0]
+		}
+		ret, block := sNone(), sNone()
+		if w == 1 || g.r.Chance(1, 2) {
+			ret = param(must && w == 1)
+		}
+		if w == 2 || g.r.Chance(1, 3) {
+			block = sPT(0, "Callable", sPT(0, "Tuple", param(must && w == 2)))
+		}
+		s.E = []*Spec{tuple, ret, block}
+	case 9:
+		s.S = "Variant"
+		n := 2 + g.r.Intn(2)
+		w := g.r.Intn(n)
+		for i := 0; i < n; i++ {
+			s.E = append(s.E, param(must && i == w))
+		}
+	case 10:
+		s.S = "Init"
+		s.E = []*Spec{sOT(objTypeOrder[g.r.Intn(len(objTypeOrder))])}
+		for i, n := 0, g.r.Intn(3); i < n; i++ {
+			s.E = append(s.E, g.scalar())
+		}
+	default:
+		s.S = []string{"Optional", "NotUndef", "Type", "Iterable", "Iterator", "Sensitive"}[g.r.Intn(6)]
+		s.E = []*Spec{param(must)}
+	}
+	return s
+}
+
 func (g *gen) rich(depth int) *Spec {
+	if g.r.Chance(1, 8) {
+		return g.ptype(0, true)
+	}
 	switch g.r.Intn(12) {
 	case 0:
 		return sSens(g.id(), g.value(depth+1))
